@@ -192,5 +192,15 @@ PROPS['C16'] = dict(
       + [U('toplex_n4k2', 'C16_toplex.cpp', ['VP_N=4', 'VP_K=2'], cflags=['-U__SSE2__'], weight=8, must_reach=_t16)]
       + [U('toplex_n4k3', 'C16_toplex.cpp', ['VP_N=4', 'VP_K=3'], cflags=['-U__SSE2__'], tiers=['thorough'], weight=30, must_reach=_t16), U('toplex_n3k4', 'C16_toplex.cpp', ['VP_N=3', 'VP_K=4', 'VP_LABELS=1'], cflags=['-U__SSE2__'], tiers=['thorough'], weight=30, must_reach=_t16)])
 
+# ------------------------------------------------------------------------------------------------ C17
+_t17 = ['end', 'add_edge', 'add_edge_without_blockers', 'remove_star', 'contract_edge']
+PROPS['C17'] = dict(
+  explanation='Bounded symbolic execution of the real Skeleton_blocker_complex (clang IR of the headers in /repo) through symbolic edit histories (add_edge, add_edge_without_blockers, add_simplex, remove_star of simplices of any dimension, contract_edge under link_condition); after every step contains() on every vertex set, the blocker set (= minimal non-faces with all proper faces present), num_simplices and the simplex enumeration are compared with an abstract-complex oracle; a contraction must equal the image complex and keep the dense GF(2) Betti numbers and the Euler characteristic.',
+  bounds=dict(quick='n=4 vertices, k=3 edits from the empty 1-skeleton and k=2 edits from the full simplex', thorough='n=4, k=4; n=5, k=2'),
+  outside=['more than 5 vertices', 'histories longer than k', 'geometric (point-carrying) complexes'],
+  units=[U('skbl_n4k3', 'C17_skbl.cpp', ['VP_N=4', 'VP_K=3'], weight=6, must_reach=_t17), U('skbl_full_n4k2', 'C17_skbl.cpp', ['VP_N=4', 'VP_K=2', 'VP_START_FULL'], weight=6, must_reach=['end', 'remove_star', 'contract_edge']),
+         U('skbl_full_n4k2_kf', 'C17_skbl.cpp', ['VP_N=4', 'VP_K=2', 'VP_START_FULL', 'VP_KF_STAR'], weight=4, must_reach=[], kf='C17-remove-star-sub-blocker'),
+         U('skbl_n4k4', 'C17_skbl.cpp', ['VP_N=4', 'VP_K=4'], tiers=['thorough'], weight=30, must_reach=_t17), U('skbl_full_n5k2', 'C17_skbl.cpp', ['VP_N=5', 'VP_K=2', 'VP_START_FULL'], tiers=['thorough'], weight=30, must_reach=['end', 'remove_star'])])
+
 NOT_APPLICABLE = {}
 NOTES = 'Clauses outside every claim: real thread schedules/TBB execution (engine is sequential), iostream text I/O, GMP arbitrary precision, Eigen-based Coxeter point location under general affine maps, SIMD paths of boost::unordered_flat_map (compiled with -U__SSE2__), allocation failure, inputs beyond the stated bounds.'
